@@ -59,3 +59,14 @@ Theorem C05_two_qubit_gate_refused_only_for_identical_operands : forall s h1 h2 
   snd (step s (OGate2 h1 h2 g)) = Err k -> k = KValue.
 Proof. exact gate2_refusals. Qed.
 Print Assumptions C05_two_qubit_gate_refused_only_for_identical_operands.
+
+(* whole histories: the refused operations of ANY history can be erased — the final network state is the one reached by the
+   operations that were not refused, and those get the same replies *)
+Theorem C05_refused_operations_erasable : forall ops s, run s ops = run s (keep_unrefused s ops).
+Proof. exact refused_ops_erasable. Qed.
+Print Assumptions C05_refused_operations_erasable.
+
+Theorem C05_refused_operations_erasable_replies : forall ops s,
+  run_outs s (keep_unrefused s ops) = filter (fun r => match r with Err _ => false | _ => true end) (run_outs s ops).
+Proof. exact refused_ops_erasable_outs. Qed.
+Print Assumptions C05_refused_operations_erasable_replies.
